@@ -55,6 +55,23 @@ def attributeFacts : List (String × Bool) :=
 
 theorem binders_agree : Gen.binderFacts = modelFacts ++ attributeFacts := by decide
 
+/-- The names layer threads positions functionally: a construct that fails gives back the position it started
+    from.  The emitted code does that only where the static flags say it is needed, so for the classes of the names
+    layer the flags have to be conservative: a predicate, a call and a data-dependent count can fail after their
+    operand consumed input (`always_succeeds = false`, `can_partially_succeed = true` whatever the operand is), and a
+    `let` always succeeds only if both parts do and otherwise may fail after consuming. -/
+def flagsConservative : String → List (Bool × Bool) → Bool × Bool → Bool
+  | "where", [_], f => !f.1 && f.2
+  | "call", [_], f => !f.1 && f.2
+  | "count", [_], f => !f.1 && f.2
+  | "let", [a, b], f => (!f.1 || (a.1 && b.1)) && (f.1 || f.2)
+  | _, _, _ => false
+
+theorem names_flags_conservative :
+    Gen.namesFlags.all (fun r => flagsConservative r.1 r.2.1 r.2.2) = true ∧
+    Gen.namesFlags.map (·.1) = List.replicate 4 "where" ++ List.replicate 16 "let" ++ List.replicate 8 "call" ++ List.replicate 4 "count" := by
+  decide
+
 -- the two pinned deviations are exactly where the lexical model answers differently
 example : freeIn "xa" (.let_ "xa" (.call 0 [(none, argMentioning "xa")]) (.lit [99])) = true := by decide
 example : freeIn "fa" (.bseq [(some "fb", .call 0 [(none, argMentioning "fa")]), (some "fa", .lit [120])] "C" ["fb", "fa"]) = true := by
